@@ -440,6 +440,56 @@ func senderCacheOracle(netID uint64, r rawTx, keyIdx int) (what string) {
 	return ""
 }
 
+// jsonAndVerifyOracle: the web3 JSON form of a signed transaction decodes to the same transaction (same hash, same
+// sender); crypto.VerifySignature accepts the signature under the signer's key and rejects its high-s twin; the JSON
+// decoder's own V/R/S validation never lets through something types.Sender would authenticate differently.
+func jsonAndVerifyOracle(netID uint64, r rawTx, keyIdx int) (what string) {
+	defer func() {
+		if p := recover(); p != nil {
+			what = fmt.Sprintf("panic in JSON / VerifySignature path: %v", p)
+		}
+	}()
+	if netID > 1<<62 || r.Price.BitLen() > 256 || r.Value.BitLen() > 256 {
+		// outside the JSON codec's domain (hexutil.Big is limited to 256 bits; UnmarshalJSON computes
+		// byte(V - 35 - 2*networkId) in uint64): not part of the property
+		return ""
+	}
+	tx, err := r.toTx()
+	if err != nil {
+		return ""
+	}
+	signer := types.NewYouSigner(netID)
+	js, err := tx.MarshalJSON()
+	if err != nil {
+		return "MarshalJSON of a signed transaction failed: " + err.Error()
+	}
+	var back types.Transaction
+	if err := back.UnmarshalJSON(js); err != nil {
+		return "UnmarshalJSON rejects a correctly signed transaction: " + err.Error()
+	}
+	a1, e1 := types.Sender(signer, tx)
+	a2, e2 := types.Sender(signer, &back)
+	if back.Hash() != tx.Hash() || (e1 == nil) != (e2 == nil) || a1 != a2 {
+		return "JSON round trip changes the transaction or its sender"
+	}
+	h := signer.Hash(tx)
+	sig := make([]byte, 64)
+	rb, sb := r.R.Bytes(), r.S.Bytes()
+	copy(sig[32-len(rb):32], rb)
+	copy(sig[64-len(sb):64], sb)
+	pub := crypto.CompressPubkey(&keys[keyIdx].PublicKey)
+	if !crypto.VerifySignature(pub, h[:], sig) {
+		return "VerifySignature rejects the signature under the signing key"
+	}
+	hs := new(big.Int).Sub(secpN, r.S).Bytes()
+	twin := append(append([]byte{}, sig[:32]...), make([]byte, 32)...)
+	copy(twin[64-len(hs):], hs)
+	if crypto.VerifySignature(pub, h[:], twin) {
+		return "VerifySignature accepts the high-s twin of a signature"
+	}
+	return ""
+}
+
 type pairFail struct{ kind, what string }
 
 // evalPair: orig must recover a sender; the mutant must be rejected or recover a different one.
@@ -509,6 +559,9 @@ func runSenderPart(c *vh.Ctx, drv *vh.Driver) error {
 		if g.class != "ok" || g.addr != addrs[keyIdx] {
 			report("oracle", fmt.Sprintf("a transaction signed by key %d for network %d authenticates as %s %x", keyIdx, netID, g.class, g.addr),
 				fmt.Sprintf("signed-%d", i), []string{fmt.Sprintf("S %d %s", netID, o.text())})
+		}
+		if w := jsonAndVerifyOracle(netID, o, keyIdx); w != "" {
+			report("oracle", w, fmt.Sprintf("json-%d", i), []string{fmt.Sprintf("S %d %s", netID, o.text())})
 		}
 		if w := senderCacheOracle(netID, o, keyIdx); w != "" {
 			report("oracle", w, fmt.Sprintf("cache-%d", i), []string{fmt.Sprintf("S %d %s", netID, o.text())})
